@@ -114,3 +114,46 @@ def desugar_continue(text, log, where):
         if not changed: break
     if total: log.add('R14', where, '%d `if .. { ..; continue; }` in for-loops' % total, 'if .. { .. } else { rest of the loop body }')
     return text
+
+def ndarray_index(text, names, log, where):
+    """R17: ndarray `Index`/`IndexMut` sugar on the arrays `names` (declared as Array1/Array2 in the function) becomes explicit
+    accessor calls of the stand-in:   X[(i, j)] = E;  =>  let vx_tmp = E; X.vx_set(i, j, vx_tmp);      X[(i, j)]  =>  (*X.vx_at(i, j))
+    (same for one index).  Evaluation order is unchanged (the right-hand side is evaluated before the store, as in Rust)."""
+    pat = re.compile(r'\b(' + '|'.join(map(re.escape, names)) + r')\[')
+    n_w = n_r = 0
+    # writes first (statement level), from the end of the text backwards
+    while True:
+        hit = None
+        for i in L.code_positions(text):
+            m = pat.match(text, i)
+            if not m or (i > 0 and (text[i-1].isalnum() or text[i-1] in '_.')): continue
+            br = m.end() - 1
+            bc = L.match_close(text, br)
+            mm = re.match(r'\s*=(?!=)\s*', text[bc + 1:])
+            if mm: hit = (i, m.group(1), br, bc, bc + 1 + len(mm.group(0)))
+        if hit is None: break
+        i, name, br, bc, rhs0 = hit
+        e = L.stmt_end(text, rhs0)
+        idx = text[br + 1:bc].strip()
+        if idx.startswith('(') and idx.endswith(')'): idx = idx[1:-1].strip()
+        ls = text.rfind('\n', 0, i) + 1
+        ind = text[ls:i]
+        rhs = text[rhs0:e].rstrip()
+        text = text[:i] + 'let vx_tmp = ' + rhs + ';\n' + ind + '%s.vx_set(%s, vx_tmp);' % (name, idx) + text[e + 1:]
+        n_w += 1
+    # reads
+    while True:
+        hit = None
+        for i in L.code_positions(text):
+            m = pat.match(text, i)
+            if not m or (i > 0 and (text[i-1].isalnum() or text[i-1] in '_.')): continue
+            hit = (i, m.group(1), m.end() - 1); break
+        if hit is None: break
+        i, name, br = hit
+        bc = L.match_close(text, br)
+        idx = text[br + 1:bc].strip()
+        if idx.startswith('(') and idx.endswith(')'): idx = idx[1:-1].strip()
+        text = text[:i] + '(*%s.vx_at(%s))' % (name, idx) + text[bc + 1:]
+        n_r += 1
+    if n_w or n_r: log.add('R17', where, '%d indexed stores, %d indexed loads on %s' % (n_w, n_r, '/'.join(names)), 'vx_set / vx_at of the ndarray stand-in')
+    return text
